@@ -255,6 +255,39 @@ Example C04_lyds_dup_keeps_source_order :
   end.
 Proof. vm_compute. repeat split. Qed.
 
+(* lyd_merge_tree / lyd_merge_siblings for the instances xs of one (leaf-)list (source sibling order; no two of them
+   compare equal - NoDup on identities is a premise, distinct keys an assumption of the model), with LYD_MERGE_DESTRUCT
+   (lyds_pool_add, lyds_insert2, lyds_additionally_reuse_rb_tree: `pool` recycled red-black nodes, ANY number, so the
+   pool may run dry at every point of the rebuild of the target's tree and of the inserts) or without (pool = 0):
+   no NULL dereference, tree and siblings agree (lyds_ok), nothing is lost or doubled (the siblings are the old ones plus
+   the source instances whose key was new: merge_news), and the result is the stable sorted merge of both runs: it is
+   sorted as soon as there is a tree, and sorting it equals inserting the new instances one by one into the sorted target. *)
+Theorem C04_lyd_merge_spec :
+  forall A (cmp : A -> A -> comparison) (ideq : A -> A -> bool), total_preorder cmp -> is_identity ideq ->
+  forall xs pool (s : lst A), lyds_ok cmp s -> NoDup (sibs s ++ xs) ->
+  exists s', lyd_merge_list cmp ideq false pool s xs = Some s' /\ lyds_ok cmp s' /\
+             isort cmp (sibs s') = fold_left (stable_insert cmp) (merge_news cmp (sibs s) xs) (isort cmp (sibs s)) /\
+             Permutation (sibs s ++ merge_news cmp (sibs s) xs) (sibs s') /\
+             (~ no_tree s' -> sorted cmp (sibs s')).
+Proof. intros A cmp ideq (H1 & H2) Hid. apply lyd_merge_list_spec; assumption. Qed.
+Print Assumptions C04_lyd_merge_spec.
+
+(* Regression (seeded change C14-6, skip = true: lyds_additionally_reuse_rb_tree reports `next_node` instead of `iter` as
+   the hand-over point when the pool runs dry): target 10 20 30 40 50 without tree, source 25 35 45 with its tree (3 recycled
+   nodes): the instance 40, for which no recycled node was left, never gets into the tree, 45 is linked in front of it. *)
+Example C04_lyd_merge_skip_refuted :
+  match lyd_merge_list elt_cmp elt_ideq true 3 (mkLst [e 10 0; e 20 1; e 30 2; e 40 3; e 50 4] None) [e 25 5; e 35 6; e 45 7] with
+  | Some s' => sibs s' = [e 10 0; e 20 1; e 25 5; e 30 2; e 35 6; e 45 7; e 40 3; e 50 4] /\
+               match rbt s' with Some t => inorder t <> sibs s' | None => False end
+  | None => False
+  end /\
+  match lyd_merge_list elt_cmp elt_ideq false 3 (mkLst [e 10 0; e 20 1; e 30 2; e 40 3; e 50 4] None) [e 25 5; e 35 6; e 45 7] with
+  | Some s' => sibs s' = [e 10 0; e 20 1; e 25 5; e 30 2; e 35 6; e 40 3; e 45 7; e 50 4] /\
+               match rbt s' with Some t => inorder t = sibs s' | None => False end
+  | None => False
+  end.
+Proof. vm_compute. repeat split; discriminate. Qed.
+
 (* a non-trivial value: 9 nodes with three equal keys inserted in zig-zag order, two removals; the tree passes
    the checker, has the invariant, and the equal keys 5 stand in insertion order (identities 1, 4, 6) *)
 Definition ex_ops : list (op (Z * N)) :=
